@@ -34,18 +34,6 @@ type c04Pair struct {
 	e8       c02Enc
 }
 
-func c04DeclXY(s *libSpace) (r, g, b, w refcolor.XY) {
-	f := func(c func() (x, y float32)) refcolor.XY {
-		x, y := c()
-		return refcolor.XY{X: float64(x), Y: float64(y)}
-	}
-	r = f(func() (float32, float32) { c := s.PR(); return c.X, c.Y })
-	g = f(func() (float32, float32) { c := s.PG(); return c.X, c.Y })
-	b = f(func() (float32, float32) { c := s.PB(); return c.X, c.Y })
-	w = f(func() (float32, float32) { c := s.White(); return c.X, c.Y })
-	return
-}
-
 func newC04Pair(src, dst *libSpace) (*c04Pair, error) {
 	p := &c04Pair{src: src, dst: dst}
 	sw, dw := src.White(), dst.White()
